@@ -170,7 +170,8 @@ def _drop_prefix_letters(t, letters):
 
     while pos < n:
         c = t[pos]
-        if not _is_word(c):
+        # (a quote in front of the letter: the letter is the text of a one letter string, finding F29)
+        if not _is_word(c) and c not in '\'"':
             end = prefix_at(pos + 1)
             if end is not None:
                 out.append(c)
